@@ -79,6 +79,16 @@ Proof.
   - apply IH. intros a b Ha Hb. apply Hinj; right; assumption.
 Qed.
 
+Lemma NoDup_app_intro {A} (l1 l2 : list A) :
+  NoDup l1 -> NoDup l2 -> (forall x, In x l1 -> In x l2 -> False) -> NoDup (l1 ++ l2).
+Proof.
+  intros H1 H2 Hd. induction H1 as [|x l1 Hnot H1 IH]; [exact H2|]. simpl. constructor.
+  - intro Hin. apply in_app_or in Hin. destruct Hin as [Hin|Hin]; [contradiction|].
+    apply (Hd x); [left; reflexivity|exact Hin].
+  - apply IH. intros y Hy1 Hy2. apply (Hd y); [right; exact Hy1|exact Hy2].
+Qed.
+
+
 Section Goto.
   Variable N : list tnode.
   Variable P : list word.
